@@ -333,6 +333,25 @@ theorem c10_saba_real_schedule_reverse {S : Type} (φ : Op → S → S)
     · exact (c10_saba_schedules_palindromic.2.2 k hk).2 s hs
   exact schedSteps_reverse φ hφ (moves s) hp h n x
 
+/-- the hand-written model of `reb_integrator_saba_part1/part2/synchronize` (RV/Model/C10Saba.lean: first half drift, kick,
+    the stage loop with its two mirror-index computations, closing drift), run on the extracted coefficient tables, produces
+    exactly the operator list the C01 translator obtains by executing the C text — for all ten uncorrected types -/
+theorem c10_saba_model_is_extracted :
+    ∀ t ∈ sabaTypes, t.2.1 < 10 →
+      (sabaC[t.2.1]?).isSome ∧ (sabaD[t.2.1]?).isSome ∧ (sabaStep.lookup t.2.1).isSome ∧
+      ∀ c ∈ sabaC[t.2.1]?, ∀ d ∈ sabaD[t.2.1]?, RV.C10Saba.step t.2.2 c d = sabaStep.lookup t.2.1 := by
+  decide +kernel
+
+/-- and that model is a raw palindrome for EVERY number of stages and EVERY pair of coefficient tables (the mirror indices
+    `j > stages/2 ? stages-j : j` and `j > (stages-1)/2 ? stages-j-1 : j` make it one), hence reversed by `dt → −dt` under the
+    flow-inverse hypothesis on the primitives, for n steps -/
+theorem c10_saba_model_reverse {S : Type} (φ : Op → S → S) (hφ : ∀ o s, φ (negOp o) (φ o s) = s)
+    (stages : Nat) (hst : 1 ≤ stages) (c d : List Rat) (l : List Op) (hl : RV.C10Saba.step stages c d = some l) :
+    RawPalin l ∧ ∀ (h : Rat) (n : Nat) (x : S),
+      iter (schedStep φ (moves l) (-h)) n (iter (schedStep φ (moves l) h) n x) = x :=
+  ⟨saba_step_palindrome stages hst c d l hl,
+   fun h n x => schedSteps_reverse φ hφ (moves l) (saba_step_palindrome stages hst c d l hl) h n x⟩
+
 /-- EOS: the six unprocessed splittings are raw palindromes as outer scheme Φ0 and as inner scheme Φ1 with
     n = 1..4 sub-steps, with fresh forces -/
 theorem c10_eos_schedules_palindromic :
